@@ -204,7 +204,9 @@ Definition FlushDone (s0 : sess) (g : ghost) (f : frame) (rest : list frame) (sZ
         Good (objs sZ) (nobj s0) (work sZ) [] [] /\ J (objs sZ) (nobj s0) /\ Rel g fZ (objs sZ) (nobj s0) [] [] (work sZ) /\
         (forall x, oin (objs sZ x) = true -> omod (objs sZ x) = false) /\
         snew sZ = [] /\ sdel sZ = [] /\ nobj sZ = nobj s0 /\ committed sZ = committed s0 /\ saves sZ = saves s0 /\
-        nfid sZ = nfid s0 /\ eoc sZ = eoc s0 /\ handles sZ = handles s0.
+        nfid sZ = nfid s0 /\ eoc sZ = eoc s0 /\ handles sZ = handles s0 /\
+        (forall x, ks_find x (fks fZ) <> None ->
+           ks_find x (fks f) <> None \/ (oin (objs s0 x) = true /\ upd_sets_id (objs s0 x) = true)).
 
 (* the body of the subtransaction: a failure happens either before finalize_flush_changes (only loads and
    statements so far) or after it (C32: after_flush_postexec raises) *)
@@ -236,6 +238,15 @@ Lemma flush_body_inner : InnerSpec flush_body.
 Proof. apply flush_body_k_inner. Qed.
 
 Definition hd_state (st : sess) : option tstate := match stack st with f :: _ => Some (fstate f) | [] => None end.
+(* the key switches recorded in the innermost frame grow only by unflushed primary-key changes *)
+Definition KsGrow (st st' : sess) : Prop :=
+  match stack st, stack st' with
+  | f :: _, f' :: _ => forall x, ks_find x (fks f') <> None ->
+                         ks_find x (fks f) <> None \/ (oin (objs st x) = true /\ upd_sets_id (objs st x) = true)
+  | _, _ => True
+  end.
+Lemma KsGrow_refl : forall st, KsGrow st st.
+Proof. intros st. unfold KsGrow. destruct (stack st); auto. Qed.
 Definition ids (st : sess) : list (nat * bool) := map (fun f => (fid f, fnested f)) (stack st).
 
 Lemma lists_ids : forall fs fs', map lists_of fs' = map lists_of fs ->
@@ -250,12 +261,12 @@ Lemma flush_with_core : forall inner, InnerSpec inner ->
   Core st' gs /\ ids st' = ids st /\ nfid st' = nfid st /\ committed st' = committed st /\
   nobj st' = nobj st /\ handles st' = handles st /\ eoc st' = eoc st /\
   map lists_of (tl (stack st')) = map lists_of (tl (stack st)) /\
-  (r = Ok -> is_clean st' = true /\ hd_state st' = hd_state st) /\
+  (r = Ok -> is_clean st' = true /\ hd_state st' = hd_state st /\ KsGrow st st') /\
   (r <> Ok -> hd_state st' = hd_state st \/ (hd_state st = Some ACTIVE /\ hd_state st' = Some DEACTIVE /\ is_clean st' = true)).
 Proof.
   intros inner HI st gs r st' C H Hr. unfold flush_with in H.
   destruct (is_clean st) eqn:Ecl.
-  { inversion H; subst. split; [exact C|]. do 7 (split; [reflexivity|]). split; [auto|intros X; congruence]. }
+  { inversion H; subst. split; [exact C|]. do 7 (split; [reflexivity|]). split; [intros _; split; [auto|split; [auto|apply KsGrow_refl]]|intros X; congruence]. }
   assert (Hne : stack st <> []). { intros X. rewrite (c_empty _ _ C X) in Ecl. discriminate. }
   destruct (autobegin_core st gs C) as [gs0 [C0 [A0 _]]]. destruct (A0 Hne) as [Eg Ea]. subst gs0. rewrite Ea in *.
   destruct (stack st) as [|f rest] eqn:Es; [congruence|].
@@ -289,12 +300,13 @@ Proof.
   pose proof (lists_ids _ _ Q9) as Hrest.
   destruct r2 as [|z|].
   - (* success *)
-    inversion H; subst r st'. destruct (Hok eq_refl) as (fZ & SZ & I1 & I2 & I3 & I4 & I5 & G' & J' & R' & Cl & N1 & N2 & N3 & N4 & N5 & N6 & N7 & N8).
+    inversion H; subst r st'. destruct (Hok eq_refl) as (fZ & SZ & I1 & I2 & I3 & I4 & I5 & G' & J' & R' & Cl & N1 & N2 & N3 & N4 & N5 & N6 & N7 & N8 & KS).
     destruct (flush_ok_core sp gs g gs' fp restp sZ fZ Cp Esp Hfp Hcp Eg SZ I1 I2 I3 I4 I5 G' J' R' Cl N1 N2 N3 N4 N5 N6) as [CZ ClZ].
     split; [exact CZ|]. unfold ids, hd_state. rewrite SZ, Es. cbn [map tl].
     split; [rewrite I1, I2, Q6, Q7, Hrest; reflexivity|].
     split; [congruence|]. split; [congruence|]. split; [congruence|]. split; [congruence|]. split; [congruence|].
-    split; [exact Q9|]. split; [intros _; split; [exact ClZ|congruence]|intros X; congruence].
+    split; [exact Q9|]. split; [intros _; split; [exact ClZ|split; [congruence|]]|intros X; congruence].
+    unfold KsGrow. rewrite SZ, Es. intros x Hx. destruct (KS x Hx) as [K|K]; [left; congruence|right; rewrite <- P1; exact K].
   - (* failure *)
     specialize (Herr ltac:(discriminate)).
     assert (Fin : forall sp' fp' sZ', Core sp' gs -> stack sp' = fp' :: restp -> fstate fp' = ACTIVE -> fconn fp' = true ->
@@ -304,7 +316,7 @@ Proof.
               Core st' gs /\ ids st' = ids st /\ nfid st' = nfid st /\ committed st' = committed st /\
               nobj st' = nobj st /\ handles st' = handles st /\ eoc st' = eoc st /\
               map lists_of (tl (stack st')) = map lists_of (tl (f :: rest)) /\
-              (r = Ok -> is_clean st' = true /\ hd_state st' = hd_state st) /\
+              (r = Ok -> is_clean st' = true /\ hd_state st' = hd_state st /\ KsGrow st st') /\
               (r <> Ok -> hd_state st' = hd_state st \/ (hd_state st = Some ACTIVE /\ hd_state st' = Some DEACTIVE /\ is_clean st' = true))).
     { intros sp' fp' sZ' Cp' Esp' Hfp' Hcp' L' J1 J2 J3 J4 J5 J6 J7 H'.
       destruct (flush_fail_core sp' gs g gs' fp' restp sZ' Cp' Esp' Hfp' Hcp' Eg L') as (s4 & f4 & E4 & C4 & S4 & F4 & I4 & Cl4 & K1 & K2 & K3 & K4 & K5).
@@ -322,7 +334,7 @@ Proof.
       split; [exact Q9|]. split; [intros X; congruence|]. intros _. right. rewrite F4, Hf. auto. }
     destruct Herr as [Herr|Hdone].
     + apply (Fin sp fp sZ Cp Esp Hfp Hcp Herr); auto.
-    + destruct Hdone as (fZ & SZ & I1 & I2 & I3 & I4 & I5 & G' & J' & R' & Cl & N1 & N2 & N3 & N4 & N5 & N6 & N7 & N8).
+    + destruct Hdone as (fZ & SZ & I1 & I2 & I3 & I4 & I5 & G' & J' & R' & Cl & N1 & N2 & N3 & N4 & N5 & N6 & N7 & N8 & KS).
       destruct (flush_ok_core sp gs g gs' fp restp sZ fZ Cp Esp Hfp Hcp Eg SZ I1 I2 I3 I4 I5 G' J' R' Cl N1 N2 N3 N4 N5 N6) as [CZ ClZ].
       apply (Fin sZ fZ sZ CZ SZ); try congruence.
       apply SigL_refl.
